@@ -8,6 +8,7 @@ from skglm.solvers.common import dist_fix_point_cd
 
 from sklearn.exceptions import ConvergenceWarning
 from skglm.utils.sparse_ops import _sparse_xj_dot
+from skglm.utils import _verif
 
 EPS_TOL = 0.3
 MAX_CD_ITER = 20
@@ -124,6 +125,9 @@ class ProxNewton(BaseSolver):
 
             # check convergences
             stop_crit = max(np.max(opt), intercept_opt)
+            if _verif.ON:
+                _verif.emit("outer", solver="ProxNewton", t=t, stop_crit=stop_crit,
+                            w=w, Xw=Xw)
             if self.verbose:
                 p_obj = datafit.value(y, w, Xw) + penalty.value(w[:n_features])
                 print(
@@ -175,6 +179,9 @@ class ProxNewton(BaseSolver):
                         w, grad_ws, lipschitz_ws, datafit, penalty, ws
                     )
                 stop_crit_in = np.max(opt_in)
+                if _verif.ON:
+                    _verif.emit("epoch", solver="ProxNewton", t=t, epoch=pn_iter,
+                                w=w, Xw=Xw)
 
                 if max(self.verbose-1, 0):
                     p_obj = datafit.value(y, w, Xw) + penalty.value(w)
@@ -190,6 +197,9 @@ class ProxNewton(BaseSolver):
 
             p_obj = datafit.value(y, w, Xw) + penalty.value(w)
             p_objs_out.append(p_obj)
+            if _verif.ON:
+                _verif.emit("outer_end", solver="ProxNewton", t=t, p_obj=p_obj,
+                            w=w, Xw=Xw)
         else:
             warnings.warn(
                 f"`ProxNewton` did not converge for tol={self.tol:.3e} "
@@ -197,6 +207,9 @@ class ProxNewton(BaseSolver):
                 "Consider increasing `max_iter` and/or `tol`.",
                 category=ConvergenceWarning
             )
+        if _verif.ON:
+            _verif.emit("return", solver="ProxNewton", stop_crit=stop_crit, w=w,
+                        Xw=Xw, n_obj=len(p_objs_out))
         return w, np.asarray(p_objs_out), stop_crit
 
     def custom_checks(self, X, y, datafit, penalty):
